@@ -592,3 +592,16 @@ package interpreter
 //@   callpre (*interpreter.Future).Reject len(futures) == 0
 //@   callpre (*interpreter.Future).Resolve false
 //@   callpre (*interpreter.Future).Cancel false
+
+// ---- request variables may be shadowed (C02): query, headers, input and auth are provided to every route, and the compiler
+// ---- lets a declaration of the same name shadow them (DefineBuiltin). The interpreter binds them with a source of their own
+// ---- and never answers "cannot redeclare variable" for a name that carries it.
+//@ spec func reqBuiltin(env *Environment, name string) bool = env.vars != nil && has(env.vars, name) && env.vars[name].source == BindingRequestBuiltin
+//@ func (*Environment).LocalSource
+//@   modifies nothing
+//@   ensures result1 == (e.vars != nil && has(e.vars, name)) && (result1 ==> result == e.vars[name].source)
+//@ func (*Interpreter).executeAssign
+//@   requires env != nil
+//@   assertat "in the same scope" !reqBuiltin(env, stmt.Target)
+//@ func (*Interpreter).ExecuteRoute
+//@   callpre (*interpreter.Environment).Define arg1 != "query" && arg1 != "headers" && arg1 != "input" && arg1 != "auth"
